@@ -372,6 +372,33 @@ Definition neg_model (a : operand) : res :=
   | _ => RE EX
   end.
 
+(* ---- ExprDomain.as_quantity and the public conversions that re-apply the quantity
+        through it --------------------------------------------------------------------------
+   as_quantity(name) dispatches to as_<x>() = self._class_by_quantity(<x>)(self): a new
+   object of that quantity in self's domain with the class default units; 'undefined'
+   returns self; any other name raises ValueError *)
+Definition as_quantity_model (self : operand) (q : quantity) : res :=
+  match asq T q with
+  | AsQ q' => construct (class_by_quantity self q' None) true None
+  | AsSelf => match as_expr_cls T (od self) (oq self) with
+              | Some (d, q') => RK d q' (def_units T d q')
+              | None => RK (od self) (oq self) (ou self)
+              end
+  | AsError => RE EV
+  end.
+Definition generic (d : domain) (v : valkind) : operand := Op d Qundef (def_units T d Qundef) v.
+(* .magnitude of a complex-valued expression: Nnew / Dnew is a generic expression (of the
+   phasor-ratio domain for a phasor, by _div_domain), then as_quantity(self.quantity) *)
+Definition magnitude_model (a : operand) : res :=
+  as_quantity_model (generic (if cd F_is_phasor_domain a then Dphasor_ratio else adom a) (ov a)) (aq a).
+(* PhasorRatioDomainExpression.laplace() / (s): LaplaceDomainExpression(...).as_quantity(q) *)
+Definition pr_laplace_model (a : operand) : res := as_quantity_model (generic Dlaplace (ov a)) (aq a).
+(* PhasorDomainExpression.time(): TimeDomainExpression(...).as_quantity(q) *)
+Definition phasor_time_model (a : operand) : res := as_quantity_model (generic Dtime (ov a)) (aq a).
+(* HT / IHT: self.__class__(result).as_quantity(q) *)
+Definition hilbert_model (a : operand) : res :=
+  as_quantity_model (Op (od a) (oq a) (def_units T (od a) (oq a)) (ov a)) (aq a).
+
 (* ---- domain transforms between the time domain and the Laplace / Fourier / angular
         Fourier domains (TimeDomainExpression.LT / FT, LaplaceDomainExpression.ILT,
         FourierDomainExpression / AngularFourierDomainExpression.inverse_fourier) --------
